@@ -139,7 +139,9 @@ func (m *wsModel) pop() *vs.Violation {
 		return v
 	}
 	if !ok {
-		m.tr.Ev("pop -> none")
+		if m.kind != "random" {
+			m.tr.Ev("pop -> none")
+		}
 		if m.anySendable() {
 			var which []uint32
 			for _, id := range m.order {
@@ -172,8 +174,6 @@ func (m *wsModel) pop() *vs.Violation {
 		m.control = m.control[1:]
 		if m.kind != "random" {
 			m.tr.Ev("pop -> control tag=%d", h.tag)
-		} else {
-			m.tr.Ev("pop -> control")
 		}
 		return nil
 	}
@@ -193,10 +193,10 @@ func (m *wsModel) pop() *vs.Violation {
 		return vs.Violf("C12", "duplicate_or_phantom", m.sig("phantom"), "Pop returned frame %v of stream %d whose model queue is empty", wr, id)
 	}
 	h := s.q[0]
+	// (the random scheduler picks streams in Go map order, which no seed controls:
+	// its pop results are kept out of the trace, the oracle does not depend on them)
 	if m.kind != "random" {
 		m.tr.Ev("pop -> stream %d tag=%d", id, h.tag)
-	} else {
-		m.tr.Ev("pop -> stream")
 	}
 	if !h.isData {
 		if !wsSameWrite(wr.write, h.write) {
@@ -361,7 +361,16 @@ func wsRun(rt *rapid.T, prop string) {
 		tr: tr, nextID: 1, nextPush: 2, pending: map[uint32]PriorityParam{}, lastNonInc: map[uint8]uint32{}}
 	m.connFlow.add(int32(vs.Pick(c, 65535, 0, 1, 10, 100, 1<<20)))
 	initWin := int32(vs.Pick(c, 65535, 0, 1, 10, 100))
-	tr.Ev("sched=%s maxframe=%d conn=%d initwin=%d", kind, sc.maxFrameSize, m.connFlow.n, initWin)
+	// With the random scheduler the model state after a Pop depends on Go map
+	// order, so only the operation kinds (not state-dependent values) enter the trace.
+	ev := func(format string, args ...any) {
+		if kind == "random" {
+			tr.Ev("%s", format)
+			return
+		}
+		tr.Ev(format, args...)
+	}
+	ev("sched=%s maxframe=%d conn=%d initwin=%d", kind, sc.maxFrameSize, m.connFlow.n, initWin)
 	maxStreams := vs.Thorough(8, 16)
 	nops := vs.Range(c, 1, vs.Thorough(80, 250))
 	var viol *vs.Violation
@@ -435,7 +444,7 @@ func wsRun(rt *rapid.T, prop string) {
 			}
 			m.streams[id] = s
 			m.order = append(m.order, id)
-			tr.Ev("open %d pusher=%d u=%d i=%d", id, opt.PusherID, s.urg, s.inc)
+			ev("open %d pusher=%d u=%d i=%d", id, opt.PusherID, s.urg, s.inc)
 			viol = vs.Guard("C12", m.sig("panic_in_open"), func() { ws.OpenStream(id, opt) })
 		case choice == 1: // close
 			if len(open) == 0 {
@@ -451,7 +460,7 @@ func wsRun(rt *rapid.T, prop string) {
 			}
 			s.closedQ = len(s.q)
 			s.q = nil
-			tr.Ev("close %d (discarding %d)", id, s.closedQ)
+			ev("close %d (discarding %d)", id, s.closedQ)
 			viol = vs.Guard("C12", m.sig("panic_in_close"), func() { ws.CloseStream(id) })
 		case choice == 2: // adjust
 			m.endWindow()
@@ -472,7 +481,7 @@ func wsRun(rt *rapid.T, prop string) {
 			} else {
 				vs.G.Inc("probe.adjust_closed_stream")
 			}
-			tr.Ev("adjust %d dep=%d excl=%v w=%d u=%d i=%d", id, p.StreamDep, p.Exclusive, p.Weight, p.urgency, p.incremental)
+			ev("adjust %d dep=%d excl=%v w=%d u=%d i=%d", id, p.StreamDep, p.Exclusive, p.Weight, p.urgency, p.incremental)
 			if s != nil && !s.open && kind == "rfc9218" {
 				// closed stream: rfc9218 would buffer it as a pending update for a
 				// stream id that is never opened again; harmless, but it overwrites
@@ -503,12 +512,12 @@ func wsRun(rt *rapid.T, prop string) {
 				if vs.Bool(c) {
 					wr.done = make(chan error, 1)
 				}
-				tr.Ev("push %d DATA tag=%d len=%d end=%v", id, f.tag, n, f.end)
+				ev("push %d DATA tag=%d len=%d end=%v", id, f.tag, n, f.end)
 			} else {
 				w := &vfFrame{tag: f.tag, kind: "HEADERS"}
 				f.write = w
 				wr = FrameWriteRequest{write: w, stream: s.st}
-				tr.Ev("push %d HEADERS tag=%d", id, f.tag)
+				ev("push %d HEADERS tag=%d", id, f.tag)
 			}
 			s.q = append(s.q, f)
 			pushes++
@@ -522,10 +531,10 @@ func wsRun(rt *rapid.T, prop string) {
 				id := uint32(1 + c.Intn(int(m.nextID)+2))
 				f.write = StreamError{StreamID: id, Code: ErrCode(f.tag)}
 				f.rst = true
-				tr.Ev("push RST_STREAM(%d) tag=%d", id, f.tag)
+				ev("push RST_STREAM(%d) tag=%d", id, f.tag)
 			} else {
 				f.write = &vfFrame{tag: f.tag, kind: "CONTROL"}
-				tr.Ev("push CONTROL tag=%d", f.tag)
+				ev("push CONTROL tag=%d", f.tag)
 			}
 			m.control = append(m.control, f)
 			pushes++
@@ -537,7 +546,7 @@ func wsRun(rt *rapid.T, prop string) {
 				s := m.streams[id]
 				d := int32(vs.Pick(c, 1, 10, 100, 65535, -1, -10, -100, -65535))
 				if s.st.flow.add(d) {
-					tr.Ev("window stream %d %+d -> %d", id, d, s.st.flow.n)
+					ev("window stream %d %+d -> %d", id, d, s.st.flow.n)
 					if s.st.flow.n < 0 {
 						vs.G.Inc("probe.window_negative")
 					}
@@ -545,13 +554,13 @@ func wsRun(rt *rapid.T, prop string) {
 			} else {
 				d := int32(vs.Pick(c, 1, 10, 100, 65535, 1<<20))
 				if m.connFlow.add(d) {
-					tr.Ev("window conn %+d -> %d", d, m.connFlow.n)
+					ev("window conn %+d -> %d", d, m.connFlow.n)
 				}
 			}
 		case choice == 8 && vs.Pct(c, 30): // max frame size change
 			m.endWindow()
 			sc.maxFrameSize = int32(vs.Pick(c, 16384, 1, 7, 64, 1024, 1<<24-1))
-			tr.Ev("maxframe %d", sc.maxFrameSize)
+			ev("maxframe %d", sc.maxFrameSize)
 		default: // pop burst
 			n := vs.Range(c, 1, 12)
 			for i := 0; i < n && viol == nil; i++ {
@@ -574,7 +583,7 @@ func wsRun(rt *rapid.T, prop string) {
 			}
 		}
 		sc.maxFrameSize = 1 << 20
-		tr.Ev("drain")
+		ev("drain")
 		for i := 0; i < 100000 && viol == nil; i++ {
 			if !m.anySendable() {
 				// one more Pop must report nothing
